@@ -121,7 +121,7 @@ def run_fit(config, data, phsp, meth, stop):
     return res
 
 
-def observe(ctx, key, config, amp, fcn, res, before, nll_start, cset, dct, data, phsp, work, tag):
+def observe(ctx, key, config, amp, fcn, res, before, nll_start, cset, dct, data, phsp, work, tag, above_start=True):
     """the clauses of C08 on the real objects; returns number of problems reported"""
     probs = []
     now = {k: float(v) for k, v in config.get_params().items()}
@@ -159,7 +159,7 @@ def observe(ctx, key, config, amp, fcn, res, before, nll_start, cset, dct, data,
     nll_res = nll_at(fcn, full)
     if abs(nll_res - res.min_nll) > 1e-8 * max(1.0, abs(nll_res)):
         probs.append(("min_nll_vs_params", {"min_nll": res.min_nll, "nll_at_result": nll_res}))
-    if res.min_nll > nll_start + 1e-8 * max(1.0, abs(nll_start)):
+    if above_start and res.min_nll > nll_start + 1e-8 * max(1.0, abs(nll_start)):
         probs.append(("above_start", {"min_nll": res.min_nll, "start": nll_start}))
     # (g) file -> freshly built model
     for route in ("save_as", "save_params"):
@@ -187,11 +187,120 @@ def observe(ctx, key, config, amp, fcn, res, before, nll_start, cset, dct, data,
     return len(probs)
 
 
+SCIPY_METHODS = ("BFGS", "CG", "Nelder-Mead", "L-BFGS-B", "Newton-CG", "trust-krylov", "trust-ncg", "trust-exact", "Newton-CG-p", "trust-krylov-p", "trust-ncg-p")
+
+
+class Adversary:
+    """The minimiser of FitSession.tla on the real epilogues: stands in for scipy.optimize.minimize inside tf_pwa.fit.
+    It evaluates the objective at the start (point 0) and at `n_eval` further points (Eval; each evaluation moves the
+    model parameters), calls the callback after each, and reports point `b` (Finish(b)) -- in general not the last one."""
+
+    def __init__(self, n_eval, b, converged, rng):
+        self.n_eval, self.b, self.converged, self.rng = n_eval, b, converged, rng
+        self.calls = 0
+
+    def __call__(self, fun, x0, args=(), method=None, jac=None, hess=None, hessp=None, bounds=None, callback=None, options=None, **kw):
+        from scipy.optimize import OptimizeResult
+
+        self.calls += 1
+        x0 = np.array(x0, dtype=float)
+        pts = [x0.copy()]
+        for k in range(1, self.n_eval + 1):
+            step = np.array([self.rng.uniform(-1.0, 1.0) for _ in x0]) * 0.08
+            x = x0 + step
+            if bounds is not None:  # native bounds (L-BFGS-B): a bounded minimiser stays inside
+                for i, (lo, hi) in enumerate(bounds):
+                    if lo is not None and x[i] <= lo:
+                        x[i] = lo + 0.25 * (x0[i] - lo)
+                    if hi is not None and x[i] >= hi:
+                        x[i] = hi - 0.25 * (hi - x0[i])
+            pts.append(x)
+        vals = []
+        for k, x in enumerate(pts):
+            v = fun(x.copy())
+            f, g = (float(v[0]), np.array(v[1], dtype=float)) if isinstance(v, tuple) else (float(v), np.zeros_like(x))
+            vals.append((f, g))
+            if callback is not None and k >= 1:
+                callback(x.copy())
+        f, g = vals[self.b]
+        out = OptimizeResult(x=pts[self.b].copy(), fun=f, jac=g, success=bool(self.converged), status=0 if self.converged else 1,
+                             message="adversarial minimiser of FitSession.tla", nit=self.n_eval, nfev=len(pts), njev=len(pts))
+        if method == "BFGS":
+            out["hess_inv"] = np.eye(len(x0))
+        return out
+
+
+def adversary_part(ctx, rng, cases, quick):
+    """Finish(b) of FitSession.tla for every scipy-based method name on the real epilogue code: the adversary replaces
+    scipy.optimize.minimize, everything else (bound installation, transformed coordinates, set_trans_var, remove_bound,
+    standard_complex, FitResult, except_result, save / load into a fresh model) is the library's."""
+    import tf_pwa.fit as tfit
+
+    n_data, n_phsp = 40, 160
+    p_data = models.phsp_p4(n_data, ctx.seed % 1000 + 31)
+    p_phsp = models.phsp_p4(n_phsp, ctx.seed % 1000 + 32)
+    cases = sorted(cases)
+    if quick:
+        # stratified: for every (method, bounds declared) one case whose reported point is not the last evaluated one,
+        # plus a seeded sample of the rest
+        must, rest = [], []
+        seen = set()
+        for c in cases:
+            meth, stop, evals, b, hb = c
+            k = (meth, hb)
+            if k not in seen and stop != "large" and evals >= 2 and 0 < b < evals:
+                seen.add(k)
+                must.append(c)
+            else:
+                rest.append(c)
+        cases = must + rng.sample(rest, min(len(rest), 10))
+    csets = {True: ["two-sided", "all", "float-mass"], False: ["plain", "fixed+tied", "small-plain"]}
+    built = {}
+    n = 0
+    real_minimize = tfit.minimize
+    try:
+        for meth, stop, evals, b, hb in cases:
+            cset = csets[hb][n % len(csets[hb])] if not quick else csets[hb][(n // 2) % len(csets[hb])]
+            if cset not in built:
+                dct, config, amp = build(cset, ctx.seed % 1000 + 40 + len(built), n_data, n_phsp)
+                data = config.data.cal_angle(p_data)
+                phsp = config.data.cal_angle(p_phsp)
+                built[cset] = (dct, config, amp, data, phsp, {k: float(v) for k, v in config.get_params().items()})
+            dct, config, amp, data, phsp, start = built[cset]
+            amp.vm.remove_bound()
+            amp.set_params(start)
+            fcn = config.get_fcn([[data], [phsp], None, None])
+            key = "adversary:%s:%s:evals=%d:reports=%d:%s" % (meth, stop, evals, b, cset)
+            before = dict(start)
+            nll_start = nll_at(fcn, {})
+            adv = Adversary(evals, b, stop == "converged", random.Random(ctx.seed * 1000 + n))
+            tfit.minimize = adv
+            try:
+                res = run_fit(config, data, phsp, meth, stop)
+            except Exception as e:
+                tfit.minimize = real_minimize
+                ctx.violation(key + ":raises", {"error": repr(e)[:300]})
+                n += 1
+                continue
+            finally:
+                tfit.minimize = real_minimize
+            if adv.calls != 1:
+                raise tlc.MachineryError("the adversary was called %d times in %s (fit.py no longer calls scipy.optimize.minimize once)" % (adv.calls, key))
+            observe(ctx, key, config, amp, fcn, res, before, nll_start, cset, dct, data, phsp, ctx.work, "a%d" % n, above_start=False)
+            ctx.count(1, distinct_key=key)
+            n += 1
+    finally:
+        tfit.minimize = real_minimize
+    ctx.part("adversarial_minimiser", cases=n, methods=len(set(c[0] for c in cases)))
+    return n
+
+
 def run(ctx):
     quick = ctx.tier == "quick"
     rng = random.Random(ctx.seed)
     # ---------------- the model ----------------------------------------------
     reach = set()
+    adv_cases = set()
     for hb in (False, True):
         p = os.path.join(ctx.work, "fit_%s.cfg" % hb)
         with open(p, "w") as f:
@@ -206,6 +315,8 @@ def run(ctx):
         for st in tlc.parse_dump(dump):
             if st["pc"] == "returned":
                 reach.add((st["prev"], st["meth"], st["stop"], hb))
+                if st["prev"] == "none" and st["meth"] in SCIPY_METHODS and st["nfit"] == 1 and st["saved"]["at"] == -1:
+                    adv_cases.add((st["meth"], st["stop"], int(st["evals"]), int(st["res"]["paramsAt"]), hb))
     ctx.cov["exhaustive"] = True
     ctx.part("model", reachable_returns=len(reach))
 
@@ -272,8 +383,12 @@ def run(ctx):
         if nrun == 1:
             ctx.sample({"scenario": key, "min_nll": res.min_nll, "start_nll": nll_start, "n_params": len(res.params)})
         ctx.log("%s %.1fs" % (key, time.time() - t0))
-    ctx.cov["traces_validated_against_impl"] = nrun
     ctx.part("real_fits", scenarios=nrun)
+    # ---------------- the adversarial minimiser of the model on the real epilogues --------
+    if not adv_cases:
+        raise tlc.MachineryError("no returned state of FitSession.tla to realise with the adversary")
+    nadv = adversary_part(ctx, rng, adv_cases, quick)
+    ctx.cov["traces_validated_against_impl"] = nrun + nadv
     ctx.cov["rule"] = (
         "FitSession.tla: all sessions of <= 2 fits x 12 method names x stop kinds x <= 3 adversarial evaluations, with and "
         "without declared bounds, are TLC states; every reachable (previous method, method, stop) used by the tier is realised "
